@@ -296,3 +296,12 @@ Fixpoint c14_guard (h : head) (s : str) {struct h} : bool :=
   end.
 
 End Serdes.
+
+(* The unguarded statement, for a given version of the code (fixd): every head that is not NoOp / Bytes,
+   every encodable s, every carrier.  FALSE for both versions (Proofs/SerdesLemmas.v: full_refuted). *)
+Definition no_bytes_target (h : head) : bool :=
+  match h with HNoOp | HBytes => false | _ => true end.
+Definition C14_full (fixd : bool) : Prop :=
+  forall rt, RuntimeLaws rt -> forall rest whole sup h k s,
+    no_bytes_target h = true -> encodable s = true ->
+    entry_gen rt rest whole sup fixd h (carrier rt k s) = entry_gen rt rest whole sup fixd h (PStr s).
